@@ -30,22 +30,28 @@ def jsonSkipWs : Str → Str
 /-- scans a number literal; returns (text, rest) -/
 def jsonScanNumber (s : Str) : Option (Str × Str) :=
   let takeDigits (s : Str) : Str × Str := (s.takeWhile jsonIsDigit, s.dropWhile jsonIsDigit)
-  let (neg, s1) := match s with | 45 :: r => ([(45 : UInt8)], r) | _ => ([], s)
+  let (neg, s1) : Str × Str := match s with
+    | c0 :: r => if c0 == 45 then ([(45 : UInt8)], r) else ([], s)
+    | [] => ([], s)
   match s1 with
   | [] => none
   | c :: r =>
     if ¬ jsonIsDigit c then none else
     let (intPart, s2) := if c == 48 then ([c], r) else takeDigits s1
-    let (frac, s3) := match s2 with
-      | 46 :: r2 => let (d, r3) := takeDigits r2; (if d.isEmpty then none else some ((46 : UInt8) :: d), r3)
-      | _ => (some [], s2)
+    let (frac, s3) : Option Str × Str := match s2 with
+      | c2 :: r2 =>
+        if c2 == 46 then (let (d, r3) := takeDigits r2; (if d.isEmpty then none else some ((46 : UInt8) :: d), r3))
+        else (some [], s2)
+      | [] => (some [], s2)
     match frac with
     | none => none
     | some fr =>
       match s3 with
       | e :: r4 =>
         if e == 101 || e == 69 then
-          let (sg, r5) := match r4 with | 43 :: x => ([(43 : UInt8)], x) | 45 :: x => ([(45 : UInt8)], x) | _ => ([], r4)
+          let (sg, r5) : Str × Str := match r4 with
+            | x0 :: x => if x0 == 43 then ([(43 : UInt8)], x) else if x0 == 45 then ([(45 : UInt8)], x) else ([], r4)
+            | [] => ([], r4)
           let (d, r6) := takeDigits r5
           if d.isEmpty then none else some (neg ++ intPart ++ fr ++ [e] ++ sg ++ d, r6)
         else some (neg ++ intPart ++ fr, s3)
